@@ -91,6 +91,12 @@ Inv_C14_consensus == H("C14_consensus")
 Inv_C14_once == H("C14_once")
 Inv_C14_boards == H("C14_boards")
 
+\* C12 at model level: the engine's own decision never throws away a hand that can still win part of a pot it is eligible
+\* for (declarative CanStillWin vs the operational can-win-now), and whoever is due to be killed cannot
+Inv_C12_show == (Sane /\ S.street # 0 /\ S.showq # <<>>) =>
+                   LET p == Head(S.showq) IN CanStillWin(C, S, p) => (S.allin \/ CanWinNow(C, S, p))
+Inv_C12_kill == Sane => \A i \in Pl(C) : S.killPend[i] => ~CanStillWin(C, S, i)
+
 \* C08 at model level: a request is either accepted or refused - the verdict is defined (TLC would fail to evaluate otherwise)
 Inv_C08_total == \A x \in Universe : Verdict(C, S, x[1], x[2]) \in {"ok", "warn", "refuse"}
 
